@@ -342,7 +342,7 @@ func copyHandoffCanon() []caseRuns {
 			{Family: "B", Delays: false, GOMAXPROCS: 4, GOGC: "100", CopyEndStallUS: 3000},
 		}),
 		// shortest program for the (about ten times slower) -race build
-		mk("canon-copyhandoff-short-r9nano-gpus1+2", []int{1, 2}, false, map[string]int{"rounds": 1, "h2d_every": 9, "kernel_bytes": 458752, "seed": 1}, []runDesc{
+		mk("canon-copyhandoff-short-r9nano-gpus1+2", []int{1, 2}, false, map[string]int{"rounds": 2, "h2d_every": 9, "kernel_bytes": 458752, "seed": 1}, []runDesc{
 			{Family: "A", Delays: true, DelaySeed: 0xC05C6, GOMAXPROCS: 2, GOGC: "100"},
 			{Family: "B", Delays: false, GOMAXPROCS: 4, GOGC: "100", Race: true, CopyEndStallUS: 2000},
 		}),
@@ -361,8 +361,11 @@ func buildCases(c *vlib.Check) (cases []caseRuns, par []caseRuns) {
 			r := base.ForkN(fmt.Sprintf("round%d", round), slot)
 			cd := genCase(r, round, slot)
 			slotRace := race
-			if slot == 4 && !c.Thorough() {
-				slotRace = 0 // quick: the -race run of the tiny-kernel program was the longest child; the copy hand-off family has a race run instead
+			if (slot == 0 || slot == 4 || slot == 6) && !c.Thorough() {
+				// quick: no -race run for the empty-kernel, tiny-kernel and unified
+				// 4-GPU programs (the longest children); the copy hand-off family has
+				// a race run instead, slots 1, 2, 3 and 5 keep theirs
+				slotRace = 0
 			}
 			runs := makeRuns(r.Fork("runs"), k, slotRace, reps)
 			if slot == 6 {
@@ -370,7 +373,7 @@ func buildCases(c *vlib.Check) (cases []caseRuns, par []caseRuns) {
 				// more runs (thorough), most of them judged bit for bit; the
 				// in-process repetitions draw the order again
 				extra := c.N(0, 2)
-				runs = makeRunsSplit(r.Fork("runs"), k+extra, k/2+1+extra/2, race, reps)
+				runs = makeRunsSplit(r.Fork("runs"), k+extra, k/2+1+extra/2, slotRace, reps)
 			}
 			cases = append(cases, caseRuns{Case: cd, Runs: runs})
 		}
